@@ -106,7 +106,11 @@ func runC16(h *Harness) {
 			return true
 		}
 		if p != want {
+			// 'verify' means the same on every intake path: a correctly signed list whose signer can be resolved on this
+			// path (from the presented chain or the configuration) and that arrives intact is accepted here as it is
+			// on the other paths (nothing was made to fail in this cell)
 			h.Probe("verifiable-not-in-force:" + path)
+			h.Violation("C16.verify-verifiable-rejected", sigClass(), "cell %s: %s: under 'verify' a correctly signed CRL whose signer is resolvable on this path was not accepted: the probes show %s instead of %s", cell, when, p, want)
 			return false
 		}
 		return true
@@ -212,6 +216,7 @@ func runC16(h *Harness) {
 				h.Violation("C16.lenient-mode-not-refreshed", sigClass(), "cell %s: a newer parseable CRL was published but two refresh periods later the probes still show %s", cell, p)
 			} else {
 				h.Probe("verifiable-not-refreshed:" + path)
+				h.Violation("C16.verify-verifiable-rejected", sigClass()+":later-refresh", "cell %s: under 'verify' a newer correctly signed CRL (signer resolvable as before) was published, but two refresh periods later the probes still show %s: the refresh path does not accept what the other paths accept", cell, p)
 			}
 		}
 	}
